@@ -35,7 +35,9 @@ func watchdog() {
 func TestWorker(t *testing.T) {
 	go watchdog()
 	sim.WorkerMain(t, map[string]sim.Engine{
-		"C22": {Run: runPool, Nontrivial: func(c *sim.Ctx) bool { return c.Counters["probe.stream_messages_delivered"] >= 3 && c.Counters["fault.stream_cuts"] >= 1 }},
+		"C22": {Run: runPool, Nontrivial: func(c *sim.Ctx) bool {
+			return c.Counters["probe.stream_messages_delivered"] >= 3 && c.Counters["fault.stream_cuts"] >= 1
+		}},
 		"C32": {Run: runPool, Nontrivial: func(c *sim.Ctx) bool {
 			return c.Counters["probe.call_succeeded"] >= 2 && c.Counters["probe.connect_callbacks"] >= 1
 		}},
